@@ -115,6 +115,11 @@ def export_shapes():
            ("Equals", S("an1", ("ARRAY", INT, ("ARRAY", US_, ("CUSTOM", "T")))), S("an2", ("ARRAY", INT, ("ARRAY", US_, ("CUSTOM", "T"))))),
            ("forall", [("x'", INT), ("idx[0]", INT)], ("LT", S("x'", INT), S("idx[0]", INT))),
            ("And", ("exists", [("a b", BOOL)], ("Or", S("a b"), a)), ("forall", [("x", INT), ("y", INT)], ("LT", L(0, INT), x)))]
+    # array values with explicit entries (constant and term-valued), over Int and over a bit-vector index sort
+    sh += [("Equals", ("Array", ("type", INT), L(0, INT), ("dict", (L(1, INT), L(5, INT)), (L(2, INT), L(7, INT)))), arr),
+           ("Equals", ("Select", ("Array", ("type", INT), x, ("dict", (L(3, INT), y), (L(-1, INT), ("Plus", x, y)))), z), x),
+           ("Equals", ("Array", ("type", B4), L(0, B8), ("dict", (L(1, B4), L(255, B8)), (L(15, B4), S("w8", B8)))), abv),
+           ("Select", ("Array", ("type", INT), L(False, BOOL), ("dict", (L(10, INT), a), (L(2, INT), ("Or", a, b)))), x)]
     # binders whose variable order is not the order in which the variables were created
     sh += [("And", ("LT", x, y), ("forall", [("y", INT), ("x", INT)], ("LT", ("Plus", x, y), L(3, INT)))),
            ("Or", ("LT", x, ("Plus", y, S("z", INT))), ("exists", [("z", INT), ("x", INT), ("y", INT)], ("LT", ("Plus", x, y), S("z", INT)))),
